@@ -80,7 +80,8 @@ def check(pid, k, pids, tier="quick", wt=None, patch=None):
     try:
         for p in pids:
             t0 = time.time()
-            rc, o = sh("./check %s --tier %s" % (p, tier), cwd=VERIF, env={"UNIVERS_REPO": wt, "VERIF_SEED": os.environ.get("VERIF_SEED", "0")})
+            rc, o = sh("./check %s --tier %s" % (p, tier), cwd=VERIF, env={"UNIVERS_REPO": wt, "VERIF_SEED": os.environ.get("VERIF_SEED", "0"),
+                                                                                 "VERIF_EVIDENCE_DIR": "/tmp/seeded_evidence"})
             viol = [l for l in o.splitlines() if l.startswith("VIOLATION")]
             detail = []
             for l in viol[:3]:
